@@ -455,7 +455,14 @@ def base_variants():
     k = full.index("\n  schemas:") + 1
     l = full.index("\n  responses:\n    NotFound") + 1
     no_schemas = full[:k] + full[l:]
-    return [("full", full), ("no-components", no_comp), ("no-schemas", no_schemas)]
+    # every optional top-level field left out: what the base does not say, the output must not say either
+    m = full.index("servers:")
+    n = full.index("paths:")
+    minimal = full[:m] + full[n:i] if m < n < i else None
+    out = [("full", full), ("no-components", no_comp), ("no-schemas", no_schemas)]
+    if minimal:
+        out.append(("minimal", minimal))
+    return out
 
 
 def real_cli_roundtrip(o):
